@@ -71,6 +71,10 @@ fn sequences<T: Clone>(alpha: &[T], maxlen: usize) -> Vec<Vec<T>> {
 }
 
 fn finish(property: &str, tier: Tier, replay: Option<String>, instances: Vec<Instance>, rule: &str, assumptions: Vec<String>) -> i32 {
+    finish_with(property, tier, replay, instances, rule, assumptions, vec![])
+}
+
+fn finish_with(property: &str, tier: Tier, replay: Option<String>, instances: Vec<Instance>, rule: &str, assumptions: Vec<String>, extra: Vec<(&str, serde_json::Value)>) -> i32 {
     let j: Arc<e2::Judge> = Arc::new(judge);
     if let Some(path) = replay {
         return e2::replay_file(&path, &instances, &*j);
@@ -78,7 +82,7 @@ fn finish(property: &str, tier: Tier, replay: Option<String>, instances: Vec<Ins
     let started = std::time::Instant::now();
     e2::start_hang_watchdog(property, tier, 60);
     let e = e2::explore(property, instances.clone(), j);
-    e2::finish_e2(property, tier, e, &instances, rule, assumptions, started, vec![])
+    e2::finish_e2(property, tier, e, &instances, rule, assumptions, started, extra)
 }
 
 // ---------------------------------------------------------------------------------------------
@@ -186,14 +190,57 @@ fn imp_name(i: Impl) -> &'static str {
     match i { Impl::Blocking => "blocking", Impl::Tokio => "tokio" }
 }
 
+fn long_session_violation(case: &super::longsession::Case, what: &str) -> i32 {
+    let path = format!("/verif/replays/C05/long-session-{}.json", case.label().replace('#', "-"));
+    println!("VIOLATION property=C05 replay={path}");
+    println!("  signature: C05|long-session|{}", case.label());
+    println!("  witness:   one connection fed a repeating stream of whole frames, {}: {what}", case.label());
+    let _ = std::fs::create_dir_all("/verif/replays/C05");
+    let _ = std::fs::write(&path, json!({"property": "C05", "site": "long-session", "tokio": case.tokio, "compressed": case.compressed, "cap": case.cap, "min_bytes": case.min_bytes}).to_string());
+    1
+}
+
 pub fn c05(tier: Tier, replay: Option<String>) -> i32 {
-    finish("C05", tier, replay, c05_instances(tier),
+    use rayon::prelude::*;
+    use super::longsession as ls;
+    if let Some(path) = &replay {
+        if let Ok(v) = std::fs::read_to_string(path).map_err(|e| e.to_string()).and_then(|s| serde_json::from_str::<serde_json::Value>(&s).map_err(|e| e.to_string())) {
+            if v["site"] == "long-session" {
+                let case = ls::Case { tokio: v["tokio"].as_bool().unwrap_or(false), compressed: v["compressed"].as_bool().unwrap_or(true), cap: v["cap"].as_u64().unwrap_or(0) as usize, min_bytes: v["min_bytes"].as_u64().unwrap_or(0) };
+                return match crate::report::guard(|| ls::run(&case)) {
+                    Ok(Ok(n)) => { println!("replay: {} frames received in order, then Disconnected - held", n); 0 },
+                    Ok(Err(e)) if e.starts_with("MACHINERY") => { eprintln!("{e}"); 4 },
+                    Ok(Err(e)) => long_session_violation(&case, &e),
+                    Err(p) => long_session_violation(&case, &format!("read panicked: {p}")),
+                };
+            }
+        }
+    }
+    let long = std::time::Instant::now();
+    let cases = ls::cases(tier == Tier::Thorough);
+    let mut long_frames = 0u64;
+    if replay.is_none() {
+        let results: Vec<Result<Result<u64, String>, String>> = cases.par_iter().map(|c| crate::report::guard(|| ls::run(c))).collect();
+        for (c, r) in cases.iter().zip(results) {
+            match r {
+                Ok(Ok(n)) => long_frames += n,
+                Ok(Err(e)) if e.starts_with("MACHINERY") => { eprintln!("{e}"); return 4; },
+                Ok(Err(e)) => return long_session_violation(c, &e),
+                Err(p) => return long_session_violation(c, &format!("read panicked: {p}")),
+            }
+        }
+        eprintln!("C05 long-session: {} connections, {} frames, {:.1}s", cases.len(), long_frames, long.elapsed().as_secs_f64());
+    }
+    let labels: Vec<String> = cases.iter().map(|c| c.label()).collect();
+    finish_with("C05", tier, replay, c05_instances(tier),
         "instances = (mode, implementation, inbound frame sequence): all sequences of length <= 3 (quick) / <= 4 (thorough) over {keep-alive, TINY_PING, SMALL, unknown type, undecodable CIM, MSO, SMALL announced as 4 bytes, MSO without terminator (+ MCI claiming more cars than it holds, 252 B and 1020 B frames)} with EVERY partition of the byte stream into reads (state-merged), <= 1 (2) injected transient errors of 4 kinds, EOF at any point; plus sessions of 9-16 kB (> the 6120-byte buffer) with boundary-relative chunk choices; states merged on (receive buffer bytes, spare capacity, stream position, budgets, suspended side)",
         vec![
             "per-frame content expectation is the real codec applied to that frame alone (the codec is judged by C01-C04)".into(),
             "blocking and tokio instances are compared with the same reference read loop, hence with each other".into(),
             "long sessions use the chunk set {1, to-boundary-1, to-boundary, to-boundary+1, boundary+next frame, everything} instead of every k".into(),
-        ])
+            "the long-session connections (one execution each, run before the search; a failure there is reported at once) push the session length, not the schedule: whole-frame repeating stream, reads as large as asked or 7 bytes".into(),
+        ],
+        vec![("long_session_connections", json!(labels)), ("long_session_frames", json!(long_frames))])
 }
 
 // ---------------------------------------------------------------------------------------------
@@ -355,7 +402,8 @@ pub fn c07_instances(tier: Tier) -> Vec<Instance> {
                     j.script_writes = true;
                     j.allow_eof = false;
                     j.pending_budget = 1;
-                    j.tick_budget = if imp == Impl::Tokio { 1 } else { 0 };
+                    // (four steps = 120 s with the reply half sent: longer than any timeout in the library)
+                    j.tick_budget = if imp == Impl::Tokio { 4 } else { 0 };
                     j.storm_budget = 1;
                     j.slow_flush = 2;
                     out.push(j);
@@ -479,7 +527,8 @@ pub fn c09_instances(_tier: Tier) -> Vec<Instance> {
             // the gate looks at the version, not at the frame length
             for verify in [true, false] {
                 for v in 0..=255u8 {
-                    for extra in [4usize, 8] {
+                    // (60: the compressed size byte of the padded frame equals the length of the plain one)
+                    for extra in [4usize, 8, 60] {
                         let mut f = f_ver(c, v);
                         f[0] = sz(c, 20 + extra);
                         f.extend(std::iter::repeat(0).take(extra));
@@ -512,7 +561,7 @@ pub fn c09_instances(_tier: Tier) -> Vec<Instance> {
             for verify in [true, false] {
                 let mut frames = vec![];
                 for j in 0..300usize {
-                    frames.push(f_ver(c, if j % 2 == 0 { 9 } else { (j % 250) as u8 + 10 }));
+                    frames.push(f_ver(c, if j % 2 == 0 { 9 } else { (j % 240) as u8 + 10 }));
                     if j % 3 == 0 { frames.push(f_small(c)); }
                 }
                 let mut i = Instance::new(&format!("verstorm#{cname}#verify-{verify}#{}", imp_name(imp)), imp, c, frames);
